@@ -1,7 +1,7 @@
 (* C09_Props.v — the property theorems of C09 and nothing else.
    Each is closed by `exact <lemma>` and followed by Print Assumptions. *)
 From Coq Require Import Lia.
-From V Require Import C09_Spec C09_Proofs.
+From V Require Import C09_Spec C09_Proofs C09_ProofsW C09_ProofsJ.
 Open Scope N_scope.
 
 (* Chunking never matters: for EVERY byte string, read schedule, error-delivery mode and
@@ -84,6 +84,93 @@ Theorem json_roundtrip_any_sched_partial : forall scan, scanner_skips_newline sc
 Proof. exact json_roundtrip_any_sched_proof. Qed.
 Print Assumptions json_roundtrip_any_sched_partial.
 
+(* ---------- JSON: cuts, other endings (relative to the same oracle) ---------- *)
+(* the stream stops after j bytes of a value (j = 0: between values): the values before it, then
+   unexpected EOF when inside the value / clean EOF between values / the I/O error / the decoder blocks *)
+Theorem json_cut_any_sched_partial : forall scan, scanner_skips_newline scan ->
+  forall vs v j sch eg t,
+  Forall (scanner_ok scan) vs -> scanner_ok scan v -> ((0 < j)%nat -> starts_nonspace v) -> (j < length v)%nat ->
+  json_all scan (mk_src (json_write_all vs ++ firstn j v) sch eg t) = (vs, json_end t j).
+Proof. exact json_cut_proof. Qed.
+Print Assumptions json_cut_any_sched_partial.
+
+(* a complete last value without its newline is still delivered *)
+Theorem json_last_unterminated_partial : forall scan, scanner_skips_newline scan ->
+  forall vs v sch eg t, Forall (scanner_ok scan) vs -> scanner_ok scan v ->
+  json_all scan (mk_src (json_write_all vs ++ v) sch eg t) = (vs ++ [v], json_end t 0).
+Proof. exact json_last_unterminated_proof. Qed.
+Print Assumptions json_last_unterminated_partial.
+
+(* ---------- the writer side ---------- *)
+(* whatever the point at which the writer fails, the wire carries a prefix of the proper stream *)
+Theorem writer_wire : forall ms room, wire_of write_delimited ms room = wire_spec ms room.
+Proof. exact writer_wire_proof. Qed.
+Print Assumptions writer_wire.
+
+(* an error is reported iff something did not fit; every Encode reported successful is on the wire in full *)
+Theorem writer_reports : forall ms room n failed k,
+  write_stream write_delimited ms (sink_of room) = (n, failed, k) ->
+  failed = failed_spec room (length (write_all ms)) /\
+  (n <= length ms)%nat /\ (failed = false -> n = length ms) /\
+  match room with None => True | Some r => (length (write_all (firstn n ms)) <= r)%nat end.
+Proof. exact writer_reports_proof. Qed.
+Print Assumptions writer_reports.
+
+(* encode -> decode, both directions, every read schedule *)
+Theorem encode_decode_roundtrip : forall max ms sch eg,
+  Forall (fun m => N.of_nat (length m) <= max) ms -> max < 4294967296 ->
+  read_all max (mk_src (wire_of write_delimited ms None) sch eg TEOF) = (ms, FErr MEOF 0) /\
+  decode_all (mk_src (wire_of write_delimited ms None) sch eg TEOF) = (ms, FErr MEOF 0).
+Proof. exact encode_decode_roundtrip_proof. Qed.
+Print Assumptions encode_decode_roundtrip.
+
+(* the writer fails anywhere (the peer died mid-write) and the pipe is closed: the reader gets the first k
+   messages sent, unchanged, and a clean end iff the writer failed exactly between two frames *)
+Theorem pipe_to_runner : forall max ms room sch eg,
+  Forall (fun m => N.of_nat (length m) <= max) ms -> max < 4294967296 ->
+  exists k e, read_all max (mk_src (wire_of write_delimited ms room) sch eg TEOF) = (firstn k ms, FErr e 0) /\
+    (k <= length ms)%nat /\
+    (failed_spec room (length (write_all ms)) = false -> k = length ms /\ e = MEOF) /\
+    (e = MEOF \/ e = MUnexpected) /\
+    (e = MEOF <-> wire_of write_delimited ms room = write_all (firstn k ms)).
+Proof. exact pipe_to_runner_proof. Qed.
+Print Assumptions pipe_to_runner.
+
+Theorem pipe_to_peer : forall ms room sch eg,
+  Forall ok32 ms ->
+  exists k e, decode_all (mk_src (wire_of write_delimited ms room) sch eg TEOF) = (firstn k ms, FErr e 0) /\
+    (k <= length ms)%nat /\
+    (failed_spec room (length (write_all ms)) = false -> k = length ms /\ e = MEOF) /\
+    (e = MEOF \/ e = MUnexpected) /\
+    (e = MEOF <-> wire_of write_delimited ms room = write_all (firstn k ms)).
+Proof. exact pipe_to_peer_proof. Qed.
+Print Assumptions pipe_to_peer.
+
+(* jsonEncoder: a prefix of value-newline-value-newline... whatever the failure point (the dropped
+   newline error included) *)
+Theorem json_writer_wire : forall vs room, wire_of json_encode vs room = json_wire_spec vs room.
+Proof. exact json_writer_wire_proof. Qed.
+Print Assumptions json_writer_wire.
+
+Theorem json_encode_decode_roundtrip_partial : forall scan, scanner_skips_newline scan ->
+  forall vs sch eg, Forall (scanner_ok scan) vs ->
+  json_all scan (mk_src (wire_of json_encode vs None) sch eg TEOF) = (vs, JFErr MEOF).
+Proof. exact json_encode_decode_roundtrip_proof. Qed.
+Print Assumptions json_encode_decode_roundtrip_partial.
+
+(* JSON writer fails anywhere: the reader gets the first k values, and unexpected EOF iff the cut is
+   strictly inside value number k *)
+Theorem json_pipe_partial : forall scan, scanner_skips_newline scan ->
+  forall vs room sch eg,
+  Forall (scanner_ok scan) vs -> Forall starts_nonspace vs ->
+  exists k e, json_all scan (mk_src (wire_of json_encode vs room) sch eg TEOF) = (firstn k vs, JFErr e) /\
+    (k <= length vs)%nat /\ (room = None -> k = length vs /\ e = MEOF) /\
+    (e = MEOF \/ e = MUnexpected) /\
+    (e = MUnexpected <-> exists j v, nth_error vs k = Some v /\ (0 < j < length v)%nat /\
+                                    wire_of json_encode vs room = json_write_all (firstn k vs) ++ firstn j v).
+Proof. exact json_pipe_proof. Qed.
+Print Assumptions json_pipe_partial.
+
 (* the constants regenerated from the compiled code satisfy the theorems' hypotheses *)
 Theorem real_constants :
   c09_prefix_len = 4 /\ c09_prefix_of_258 = be32 258 /\
@@ -113,3 +200,18 @@ Proof.
   split; [intros; reflexivity|]. intros k Hk. cbn in Hk.
   do 8 (destruct k as [|k]; [reflexivity|]). exfalso. lia.
 Qed.
+Example ex_writer_fails_mid_body :
+  write_stream write_delimited [[1; 2]; [3; 4; 5]] (sink_of (Some 12%nat)) = (1%nat, true, mk_sink [0; 0; 0; 2; 1; 2; 0; 0; 0; 3; 3; 4] (Some 0%nat)) /\
+  read_all 16 (mk_src (wire_of write_delimited [[1; 2]; [3; 4; 5]] (Some 12%nat)) [5; 5]%nat true TEOF) = ([[1; 2]], FErr MUnexpected 0) /\
+  read_all 16 (mk_src (wire_of write_delimited [[1; 2]; [3; 4; 5]] (Some 6%nat)) [5; 5]%nat true TEOF) = ([[1; 2]], FErr MEOF 0).
+Proof. vm_compute. auto. Qed.
+Example ex_json_cut :
+  json_all jscan (mk_src (bs "{}" ++ [10] ++ bs "{""a""") [3]%nat false TEOF) = ([bs "{}"], JFErr MUnexpected) /\
+  json_all jscan (mk_src (bs "{}" ++ [10] ++ bs "{""a""") [3]%nat false TBlock) = ([bs "{}"], JFBlock) /\
+  json_all jscan (mk_src (bs "{}" ++ [10] ++ bs "[]") [1; 1]%nat true TEOF) = ([bs "{}"; bs "[]"], JFErr MEOF).
+Proof. vm_compute. auto. Qed.
+Example ex_json_newline_error_dropped :
+  write_stream json_encode [bs "{}"; bs "[]"] (sink_of (Some 2%nat)) = (1%nat, true, mk_sink (bs "{}") (Some 0%nat)).
+Proof. vm_compute. reflexivity. Qed.
+Example ex_starts_nonspace : starts_nonspace (bs "{}").
+Proof. exists 123, [125]. split; reflexivity. Qed.
